@@ -15,6 +15,7 @@ def run(ctx, rep):
     rep.notes.append("Does not decide conservation of r + span, correctness of nudge/bubble, total's floating-point accuracy or compare's order.")
     rel_guard(rep, prog)
     window(rep, prog)
+    rounded_output(rep, prog)
     roots = ["span::Span::round", "span::Span::total", "span::Span::compare", "span::Span::checked_add", "span::Span::checked_sub",
              "span::Span::to_duration", "span::Span::checked_mul", "<signed_duration::SignedDuration as core::convert::TryFrom<span::Span>>::try_from"]
     run_e1(ctx, rep, lambda E: by_names(E, roots), min_roots=6, min_sites=400)
@@ -118,3 +119,35 @@ def window(rep, prog, rule="WINDOW"):
         rep.ok(rule, "clamp_relative_span", how="(rel + span, rel + span{unit += amount})")
     else:
         rep.violation(rule, "clamp_relative_span", "window ends are %s" % (show(oks[0], maxd=7)[:400] if oks else show(r, maxd=4)[:300]), f.loc())
+
+
+def rounded_output(rep, prog, rule="ROUNDED-OUTPUT"):
+    """the sub-day content of a nudged span is a multiple of the increment only if it is itself a rounding result"""
+    rep.rule(rule, "in every Nudge constructor (span.rs) the nanosecond count handed to Span::from_invariant_nanoseconds - the part of "
+                   "the rounded span at and below the smallest unit - is, on every path, directly the result of "
+                   "RoundMode::round_by_unit_in_nanoseconds(_, smallest, increment) with the function's own smallest and increment: "
+                   "a difference or sum of rounded values (e.g. rounded time minus the length of a 23h/25h day) is in general not a "
+                   "multiple of the increment")
+    n = 0
+    for f in sorted(prog.fns.values(), key=lambda f: f.key):
+        if f.crate != "jiff" or f.is_closure or not f.path.startswith("span::Nudge::"):
+            continue
+        T = None
+        for bi, t in mir.iter_calls(f):
+            if not t.get("path", "").endswith("Span::from_invariant_nanoseconds"):
+                continue
+            T = T or Terms(f)
+            n += 1
+            key = "%s from_invariant_nanoseconds#%d" % (f.path.split("::")[-1], n)
+            loc = "%s:%s" % (t["span"]["file"], t["span"]["line"])
+            bad = []
+            for a in alts(T.at_call(bi, t, 1)):
+                ok = is_call(a, "::round_by_unit_in_nanoseconds") and len(a[2]) == 4 and a[2][2][0] == "param" and a[2][2][2] == "smallest" \
+                    and a[2][3][0] == "param" and a[2][3][2] == "increment"
+                if not ok:
+                    bad.append(show(a, maxd=4)[:160])
+            if bad:
+                rep.violation(rule, key, "the nanoseconds of the rounded span can be %s, which is not a rounding result" % bad[0], loc)
+            else:
+                rep.ok(rule, key, how="every reaching value is round_by_unit_in_nanoseconds(_, smallest, increment)", loc=loc)
+    rep.floor(rule + " sites", n, 2)
